@@ -99,7 +99,7 @@ inductive EditOp where
   | subTree (path : List Nat)            -- Tree.SubTree(n), the history goes on with the subtree
   | graftTree (tip : String) (g : T)     -- Tree.GraftTreeOnTip(tip, g), tip index up to date
   | insertIdentical (groups : List (List String))   -- Tree.InsertIdenticalTips(groups), tip index up to date
-  | outgroup (strict : Bool) (tips : List String)   -- Tree.RerootOutGroup(false, strict, tips...): the outgroup is kept
+  | outgroup (remove strict : Bool) (tips : List String)   -- Tree.RerootOutGroup(removeoutgroup, strict, tips...)
   | midpoint                             -- Tree.RerootMidPoint()
   | graftEdge (name : String) (k : Nat)  -- Tree.GraftTipOnEdge(new node `name`, the k-th branch in Edges() order)
   | rename (m : List (String × String))  -- Tree.Rename(map), keys pairwise distinct
@@ -164,7 +164,7 @@ def applyOp : EditOp → T → Res T
     match Gotree.C15.insertIdentical true t groups with
     | (t', none) => .ok t'
     | (_, some m) => .err m
-  | .outgroup strict tips, t => Gotree.C05.rerootOutGroup false strict tips t
+  | .outgroup remove strict tips, t => Gotree.C05.rerootOutGroup remove strict tips t
   | .midpoint, t => Gotree.C05.rerootMidPoint t
   | .graftEdge name k, t =>
     if k < Gotree.C16.numEdges t then .ok (Gotree.C16.applyAt (Gotree.C16.graftF name) k t)
@@ -198,9 +198,6 @@ def promised (ns : Bool) : EditOp → T → Bool
   | .removeSingle, _ => true
   -- an applied NNI keeps a binary tree binary; nothing is proved about single-child nodes otherwise
   | .nni _ undo, t => ns && (undo || t.binary)
-  -- outgroup / midpoint rooting: the promise is not tracked (no lemma about single-child nodes yet)
-  | .outgroup _ _, _ => false
-  | .midpoint, _ => false
   | _, _ => ns
 
 /-- What an operation may assume (the property's quantifier): pruning only has to cope with
@@ -229,7 +226,7 @@ def opPre (ns : Bool) : EditOp → T → Bool
   -- hypothesis of C15's insertion theorem: no empty name in a group
   | .insertIdentical groups, _ => groups.all (fun g => !g.contains "")
   -- hypotheses of C05's preservation theorems: lengths and supports absent or non-negative
-  | .outgroup _ _, t => Gotree.C05.lensOK t && Gotree.C05.supsOK t
+  | .outgroup remove _ _, t => remove || (Gotree.C05.lensOK t && Gotree.C05.supsOK t)
   | .midpoint, t => Gotree.C05.lensOK t && Gotree.C05.supsOK t
   | .graftEdge name _, t => !t.tipNames.contains name
   | _, _ => true
